@@ -150,6 +150,8 @@ def ownKind : Sexp → Option Own.OutKind
   | .atom "sparse" => some .sparse
   | .atom "dense" => some .dense
   | .atom "scalar" => some .scalar
+  | .atom "sparse2" => some .sparse2
+  | .atom "sparse2empty" => some .sparse2empty
   | _ => none
 
 def ownOp : Sexp → Option Own.Op
